@@ -30,8 +30,14 @@ rng("Mt19937")
 rng("XorShift128plus", loops={0: dict(invariant=["len(blocks) == _i"], types={"blocks": "list[int]"})})
 rng("XorShiftStar", loops={0: dict(invariant=["len(blocks) == _i"], types={"blocks": "list[int]"})})
 rng("Xorwow", loops={0: dict(invariant=["len(blocks) == _i"], types={"blocks": "list[int]"})})
-rng("JavaRandom", loops={0: dict(invariant=["len(ba) == 4 * values", "forall(j, 0, len(ba), 0 <= ba[j] and ba[j] < 256)"])},
-    return_hints=[("C20", "pow2_add(8 * (num_bytes - 1), n % 8)"), ("C20", "pow2_add(8 * (num_bytes - 1), 8)")])
+rng("JavaRandom", loops={0: dict(invariant=["len(ba) == 4 * values", "forall(j, 0, len(ba), 0 <= ba[j] and ba[j] < 256)"],
+                                 head=["g_prev = state"])},
+    return_hints=[("C20", "pow2_add(8 * (num_bytes - 1), n % 8)"), ("C20", "pow2_add(8 * (num_bytes - 1), 8)")],
+    # java.util.Random.next(32): seed' = (seed * 0x5DEECE66D + 0xB) mod 2^48, output = seed' >>> 16 (32 bits)
+    extra={"entry_ghost": ["g_prev = 0"],
+           "on_assign": {"output": [
+               "assert [C20] state == (g_prev * 25214903917 + 11) % 281474976710656",
+               "assert [C20] output == idiv(state, 65536) and 0 <= output and output < 4294967296"]}})
 rng("LcgNist", self_fields={"a": "int"},
     loops={1: dict(invariant=["len(res) == (n + 7) // 8", "forall(j, 0, len(res), 0 <= res[j] and res[j] < 256)",
                               "0 <= seed and seed < 2 ** 31"]),
@@ -50,4 +56,14 @@ rng("TruncLcgRand", self_fields={"output_size": "int", "a": "int", "c": "int"},
     ensures=[("C20", "implies(n % 8 == 0, 0 <= result and result < pow2(n))"),
              ("C20", "implies(n % 8 != 0, 0 <= result and result < pow2(n))", "K:F6")],
     loops={0: dict(invariant=["len(ba) == num_outputs * output_size_bytes",
-                              "forall(j, 0, len(ba), 0 <= ba[j] and ba[j] < 256)"])})
+                              "forall(j, 0, len(ba), 0 <= ba[j] and ba[j] < 256)"],
+                   head=["g_prev = state"])},
+    # the generator it models (GMP's lc_2exp): state' = (a * state + c) mod 2^(2s), output = the upper s bits of state'
+    extra={"entry_ghost": ["g_prev = 0"],
+           "on_assign": {"output": [
+               "assert [C20] state == (g_prev * self.a + self.c) % pow2(state_size_bits)",
+               "assert [C20] 0 <= state and state < pow2(state_size_bits)",
+               "pow2_add(output_size_bits, output_size_bits)",
+               "div_lt(state, pow2(output_size_bits), pow2(output_size_bits))",
+               "assert [C20] output == idiv(state, pow2(output_size_bits)) and 0 <= output and "
+               "output < pow2(output_size_bits)"]}})
